@@ -24,6 +24,10 @@ impl VecRange for core::ops::RangeFrom<u32> {
     open spec fn vlo(&self) -> int { self.start as int }
     open spec fn vhi(&self, len: int) -> int { len }
 }
+impl VecRange for core::ops::RangeFull {
+    open spec fn vlo(&self) -> int { 0 }
+    open spec fn vhi(&self, len: int) -> int { len }
+}
 impl VecRange for core::ops::RangeTo<u32> {
     open spec fn vlo(&self) -> int { 0 }
     open spec fn vhi(&self, len: int) -> int { self.end as int }
